@@ -557,8 +557,15 @@ def make_random_run(chk, cfg, nusers, region, record=None, fails=None):
     cycle, _ = default_cycle(region, md)
 
     def run(ctx):
+        """returns True when the execution ran into the horizon (livelock)"""
         case = dict(case0)
+        result = [False]
         with chk.guard(("random_user", kind), case):
+            result[0] = run_guarded(ctx, case)
+        return result[0]
+
+    def run_guarded(ctx, case):
+        if True:
             obj = build_shape(kind, pos, r, rot)
             draws = []
 
@@ -589,13 +596,13 @@ def make_random_run(chk, cfg, nusers, region, record=None, fails=None):
             chk.count("eval_placement_executions")
             if livelock:
                 fail(("random_user", kind, "rejection_loop_never_accepts"), case,
-                         observed="more than %d draws" % HORIZON,
-                         expected="an acceptable default draw is offered within %d attempts" % NDIR)
-                return
+                     observed="more than %d draws" % HORIZON,
+                     expected="an acceptable default draw is offered within %d attempts" % NDIR)
+                return True
             users = list(obj.users)
             if len(users) != nusers:
                 fail(("random_user", kind, "number_of_users"), case, observed=len(users), expected=nusers)
-                return
+                return False
             nattempts = len(draws) // 2
             accepted = []
             for usr in users:
@@ -633,6 +640,7 @@ def make_random_run(chk, cfg, nusers, region, record=None, fails=None):
             chk.outcome("placement_attempts", nattempts)
             if record is not None:
                 record.append((nattempts, tuple(complex(u.pos) for u in users)))
+            return False
     return run
 
 
@@ -646,12 +654,14 @@ def explore_sharded(run_mine, run_other, bound, split_depth, shard_i, shard_n):
 
     def rec(prefix, expect, used, depth, mine):
         ctx = Ctx(list(prefix), list(expect), HORIZON)
-        (run_mine if mine else run_other)(ctx)
+        livelocked = (run_mine if mine else run_other)(ctx)
         if len(ctx.choices) < len(prefix):
             raise Broken("execution consumed %d of %d replayed choices" % (len(ctx.choices), len(prefix)))
         if mine:
             stats[0] += 1
         stats[1] = max(stats[1], len(ctx.points))
+        if livelocked:
+            return          # reported; branching over the points of a livelocked run only repeats the livelock
         pts, ch = ctx.points, ctx.choices
         for i in range(len(prefix), len(pts)):
             arity = pts[i][0]
